@@ -33,6 +33,9 @@ package sqlc
 //@   ensures [index-error] ret(TakeWithExpireCtx) != nil ==> result == ret(TakeWithExpireCtx) && calls(TakeCtx) == 0
 //@   ensures [row-by-primary-key-through-the-cache] ret(TakeWithExpireCtx) == nil && !local(found) ==> calls(cc.cache.TakeCtx) == 1 && arg(cc.cache.TakeCtx, 1) == v && arg(cc.cache.TakeCtx, 2) == ret(keyer) && calls(keyer, local(primaryKey)) == 1 && result == ret(TakeCtx)
 //@   ensures [row-already-loaded-by-index-query] ret(TakeWithExpireCtx) == nil && local(found) ==> result == nil && calls(TakeCtx) == 0
+// the primary key used for the row is the one the index entry holds, exactly as the cache decoded it (no
+// conversion in between: a converted key names another cache entry and another row)
+//@   ensures [primary-key-as-the-index-entry-holds-it] ret(TakeWithExpireCtx) == nil && !local(found) ==> arg(keyer, 0) == after(TakeWithExpireCtx, local(primaryKey)) && local(primaryKey) == after(TakeWithExpireCtx, local(primaryKey))
 //@ func (CachedConn).QueryRowIndexCtx$1
 //@   prop C06
 //@   opaque SetWithExpireCtx
